@@ -967,6 +967,29 @@ def install(eng):
     def _isclose(eng, a, b, atol=Fraction(1, 10**8), rtol=Fraction(1, 10**5)):
         return M.elementwise(eng, lambda x, y: T.compare("le", T.absv(T.sub(x, y)), T.add(atol, T.mul(rtol, T.absv(y)))), a, b, dtype="bool")
 
+    @model("numpy.shape")
+    def _np_shape(eng, a):
+        a = M.unwrap(a)
+        if isinstance(a, I.Arr):
+            return tuple(a.shape)
+        if isinstance(a, (list, tuple)):
+            return tuple(M.array_from_seq(eng, a).shape)
+        return ()
+
+    @model("numpy.size")
+    def _np_size(eng, a):
+        a = M.unwrap(a)
+        if isinstance(a, I.Arr):
+            return M.size_of(a.shape)
+        if isinstance(a, (list, tuple)):
+            return M.size_of(M.array_from_seq(eng, a).shape)
+        return 1
+
+    @model("numpy.ndim")
+    def _np_ndim(eng, a):
+        a = M.unwrap(a)
+        return a.ndim if isinstance(a, I.Arr) else 0
+
     @model("numpy.count_nonzero")
     def _count_nonzero(eng, a):
         a = _asarray(eng, a)
